@@ -227,7 +227,7 @@ def check(run):
             if out.startswith("!"):
                 disagree.append(("printer model fails on the named types", {"program": sources[i], "model": out}))
                 continue
-            model_env = {a: model_tree(b) for a, b in json.loads(out)}
+            model_env = {a: model_tree(b) for a, b in json.loads(out, strict=False)}
             m = name_map([a for a, _ in res[i]["named_ir"]], res[i]["code"])
             if m is None:
                 disagree.append(("printed named type", {"program": sources[i], "what": "the emitted named table does not line up with the IR's named types"}))
@@ -245,7 +245,7 @@ def check(run):
         ty = dict(parsers)[name]
         desc0 = {"program": sources[i], "parser": name}
         if not ptree.startswith("!"):
-            mt = model_tree(json.loads(ptree))
+            mt = model_tree(json.loads(ptree, strict=False))
             m = name_map([a for a, _ in res[i]["named_ir"]], res[i]["code"]) or {}
             model_parsers[i][name] = rename(mt, m)
             if norm(rename(mt, m)) != norm(dumps[i]["parsers"][name]):
